@@ -444,7 +444,7 @@ def _flatten(blocks):
     return flat, index
 
 
-def validate_blocks(ctx, mon, events, name, consts=None, conf=None, max_rejects=4, timeout=900):
+def validate_blocks(ctx, mon, events, name, consts=None, conf=None, max_rejects=3, timeout=900):
     """Validate a concatenated trace (blocks start with a reset record).
 
     mon  = (module, cfg): the property monitor; a rejection is a property violation candidate.
